@@ -82,9 +82,19 @@ def positions(tree, pos=()):
     return out
 
 
+def raw_item(node, s):
+    """plain Python indexing, whatever class the node has: the oracle never goes through the library's own item
+    access (an n0dict reads a key as an xpath; a change of that code must not take the oracle with it)"""
+    if isinstance(node, dict):
+        return dict.__getitem__(node, s)
+    if isinstance(node, list):
+        return list.__getitem__(node, s)
+    return node[s]
+
+
 def get_at(tree, pos):
     for s in pos:
-        tree = tree[s]
+        tree = raw_item(tree, s)
     return tree
 
 
@@ -143,7 +153,7 @@ def render(rng, tree, pos, style=None, hidden=0.0, hidden_at=None):
                 sep = ""
             out += sep + "[" + sp + "]"
             prev_idx = True
-        cur = cur[s]
+        cur = raw_item(cur, s)
         first = False
         if hidden and style is None and not isinstance(cur, list) and rng.random() < hidden:
             out += rng.choice(HIDDEN_SELF)
@@ -267,10 +277,10 @@ def valid_pos(tree, pos):
     """pos addresses a node through dict keys and list indexes only"""
     cur = tree
     for s in pos:
-        if isinstance(cur, dict) and isinstance(s, str) and s in cur:
-            cur = cur[s]
+        if isinstance(cur, dict) and isinstance(s, str) and dict.__contains__(cur, s):
+            cur = raw_item(cur, s)
         elif isinstance(cur, list) and isinstance(s, int) and -len(cur) <= s < len(cur):
-            cur = cur[s]
+            cur = raw_item(cur, s)
         else:
             return False
     return True
